@@ -251,6 +251,16 @@ package keeper
 //@   ensures burned_ok: err == nil ==> burned.Denom == feePaid.Denom && 0 <= burned.Amount && burned.Amount <= feePaid.Amount && minted.Amount >= 0
 //@   ensures ledger:    err == nil ==> bal == credit(debit(old(bal), sender, burned.Denom, burned.Amount), rcpt, minted.Denom, minted.Amount)
 //@   ensures supply_moves: err == nil ==> supply == addcoin(addcoin(old(supply), burned.Denom, 0 - burned.Amount), minted.Denom, minted.Amount)
+// no value created and none lost: what is minted is worth at most what is burned (at the registered ratio and the two
+// tokens' scales), and what is burned is the least amount worth what is minted - the unconvertible remainder of the
+// offered coin stays with the sender
+//@   let tb = get(tokens, get(byMinUnit, feePaid.Denom))
+//@   let sp = get(k.registry, feePaid.Denom)
+//@   let tm = ite(has(tokens, sp.MinUnit), get(tokens, sp.MinUnit), get(tokens, get(byMinUnit, sp.MinUnit)))
+//@   let kk = tb.Scale - tm.Scale
+//@   ensures value_kept: err == nil ==> minted.Denom == sp.MinUnit
+//@          && (kk >= 0 ==> minted.Amount * pow10(kk) * DEC_ONE <= burned.Amount * raw(sp.Ratio) && (burned.Amount - 1) * raw(sp.Ratio) < minted.Amount * pow10(kk) * DEC_ONE)
+//@          && (kk <  0 ==> minted.Amount * DEC_ONE <= burned.Amount * raw(sp.Ratio) * pow10(0 - kk) && (burned.Amount - 1) * raw(sp.Ratio) * pow10(0 - kk) < minted.Amount * DEC_ONE)
 //@ end
 
 // ERC20 side (EVM calls through the contract ABI): assumed contracts - they do not touch the bank ledger
